@@ -506,6 +506,222 @@ fn outcome_term(r: &Res) -> Value {
     }
 }
 
+// ------------------------------------------------------------------------------------- two callers per key
+#[derive(Clone, Debug, PartialEq)]
+struct View {
+    size: u64,
+    etag: Option<String>,
+    lm: Option<DateTime<Utc>>,
+    bytes: Option<Vec<u8>>,
+}
+
+/// what one instance says about key `k` right now: head, get, list entry, list_with_delimiter entry
+async fn views(os: &dyn ObjectStore, k: &str) -> Vec<(&'static str, Option<View>)> {
+    let p = Path::from(k);
+    let mut out = Vec::new();
+    out.push(("head", match os.head(&p).await { Ok(m) => Some(View { size: m.size, etag: m.e_tag, lm: Some(m.last_modified), bytes: None }), Err(_) => None }));
+    out.push(("get", match os.get(&p).await {
+        Ok(r) => {
+            let m = r.meta.clone();
+            match r.bytes().await { Ok(b) => Some(View { size: m.size, etag: m.e_tag, lm: Some(m.last_modified), bytes: Some(b.to_vec()) }), Err(_) => Some(View { size: m.size, etag: m.e_tag, lm: None, bytes: Some(vec![0xde, 0xad]) }) }
+        }
+        Err(_) => None,
+    }));
+    let l: Vec<ObjectMeta> = os.list(None).try_collect().await.unwrap_or_default();
+    out.push(("list", l.iter().find(|m| m.location == p).map(|m| View { size: m.size, etag: m.e_tag.clone(), lm: Some(m.last_modified), bytes: None })));
+    let d = os.list_with_delimiter(None).await.map(|r| r.objects).unwrap_or_default();
+    out.push(("list_with_delimiter", d.iter().find(|m| m.location == p).map(|m| View { size: m.size, etag: m.e_tag.clone(), lm: Some(m.last_modified), bytes: None })));
+    out
+}
+
+fn same_commit(v: &Option<View>, truth: &Option<View>) -> bool {
+    match (v, truth) {
+        (None, None) => true,
+        (Some(a), Some(t)) => a.size == t.size && a.etag == t.etag && (a.lm.is_none() || a.lm == t.lm) && (a.bytes.is_none() || a.bytes == t.bytes),
+        _ => false,
+    }
+}
+
+const READERS: [&str; 6] = ["list", "list_with_delimiter", "list_with_offset", "head", "get", "get_ranges"];
+const WRITERS: [&str; 4] = ["put", "copy", "multipart", "delete"];
+
+/// One run: key "k" was committed by an earlier instance (cold cache here); a reader and a writer of
+/// "k" run through one wrapper instance under the given schedule; then everything the instance says about
+/// "k" must be the acknowledged latest commit (the view of a fresh instance over the same backend).
+async fn two_caller_run(kind: Kind, reader: usize, writer: usize, fail_cleanup: bool, post_writes: bool, choices: &[usize]) -> (Vec<usize>, Option<Value>) {
+    let mem = Arc::new(InMemory::new());
+    let v0: Vec<u8> = (0..40u8).collect();
+    let v1: Vec<u8> = (50..59u8).collect();
+    let other: Vec<u8> = (7..30u8).collect();
+    {
+        let p0 = start(kind, mem.clone());
+        p0.w.os().put(&Path::from("k"), Bytes::from(v0.clone()).into()).await.unwrap();
+        p0.w.os().put(&Path::from("j"), Bytes::from(other.clone()).into()).await.unwrap();
+    }
+    let old_view = {
+        let pc = start(kind, mem.clone());
+        views(pc.w.os(), "k").await[1].1.clone()
+    };
+    let p = start(kind, mem.clone()); // cold metadata cache
+    if fail_cleanup {
+        // the best-effort reclaim of the replaced generation fails (it is left to collect_garbage)
+        p.fault.push_rule(anda_object_store::FaultRule { op: anda_object_store::FaultOp::Delete, path_contains: Some("gen/".into()), skip: 0, times: 100, kind: anda_object_store::FaultKind::Error });
+    }
+    let sched = if post_writes { Sched::with_post_writes() } else { Sched::new() };
+    *p.rec.sched.lock().unwrap() = Some(sched.clone());
+    let w = p.w.clone();
+    let v1w = v1.clone();
+    let wtask = spawn_task(&sched, 1, async move {
+        let os = w.os();
+        let k = Path::from("k");
+        let r: Result<Option<String>> = match writer {
+            0 => os.put(&k, Bytes::from(v1w).into()).await.map(|r| r.e_tag),
+            1 => os.copy(&Path::from("j"), &k).await.map(|_| None),
+            2 => match os.put_multipart(&k).await {
+                Ok(mut up) => match up.put_part(Bytes::from(v1w).into()).await {
+                    Ok(()) => up.complete().await.map(|r| r.e_tag),
+                    Err(e) => Err(e),
+                },
+                Err(e) => Err(e),
+            },
+            _ => os.delete(&k).await.map(|_| None),
+        };
+        r.map_err(|e| e.to_string())
+    });
+    let w2 = p.w.clone();
+    let rtask = spawn_task(&sched, 0, async move {
+        let os = w2.os();
+        let k = Path::from("k");
+        // what the reader saw of "k" (None = absent / error)
+        let v: Option<View> = match reader {
+            0 => os.list(None).try_collect::<Vec<ObjectMeta>>().await.ok().and_then(|l| l.into_iter().find(|m| m.location == k)).map(|m| View { size: m.size, etag: m.e_tag, lm: Some(m.last_modified), bytes: None }),
+            1 => os.list_with_delimiter(None).await.ok().and_then(|r| r.objects.into_iter().find(|m| m.location == k)).map(|m| View { size: m.size, etag: m.e_tag, lm: Some(m.last_modified), bytes: None }),
+            2 => os.list_with_offset(None, &Path::from("j")).try_collect::<Vec<ObjectMeta>>().await.ok().and_then(|l| l.into_iter().find(|m| m.location == k)).map(|m| View { size: m.size, etag: m.e_tag, lm: Some(m.last_modified), bytes: None }),
+            3 => os.head(&k).await.ok().map(|m| View { size: m.size, etag: m.e_tag, lm: Some(m.last_modified), bytes: None }),
+            4 => match os.get(&k).await {
+                Ok(r) => {
+                    let m = r.meta.clone();
+                    r.bytes().await.ok().map(|b| View { size: m.size, etag: m.e_tag, lm: Some(m.last_modified), bytes: Some(b.to_vec()) })
+                }
+                Err(_) => None,
+            },
+            _ => os.get_ranges(&k, &[0..5]).await.ok().map(|b| View { size: 0, etag: None, lm: None, bytes: Some(b[0].to_vec()) }),
+        };
+        v
+    });
+    let branching = match sched.drive(2, choices).await {
+        Ok(b) => b,
+        Err(e) => return (vec![], Some(json!({"class":"harness-nondeterminism","what":e}))),
+    };
+    let wres = wtask.await.unwrap();
+    let seen = rtask.await.unwrap();
+    *p.rec.sched.lock().unwrap() = None;
+    let trace = sched.trace();
+    // the truth: a fresh instance over the same backend
+    let pc = start(kind, mem.clone());
+    let truth_all = views(pc.w.os(), "k").await;
+    let truth = truth_all[1].1.clone();
+    let mut fail: Option<Value> = None;
+    let ctx = |what: &str, class: &str, d: Value| json!({"class":class,"what":what,"wrapper":kind.name(),"reader":READERS[reader],"writer":WRITERS[writer],
+        "cleanup_of_replaced_generation_fails":fail_cleanup,"cold_cache":true,"schedule":trace.clone(),"detail":d,"writer_result":format!("{wres:?}")});
+    if wres.is_err() {
+        fail = Some(ctx("a writer fails when a reader of the same key runs concurrently", "two-caller", json!(null)));
+    }
+    // expected final truth
+    let want_bytes: Option<Vec<u8>> = match writer { 0 | 2 => Some(v1.clone()), 1 => Some(other.clone()), _ => None };
+    if truth.as_ref().and_then(|t| t.bytes.clone()) != want_bytes && fail.is_none() {
+        fail = Some(ctx("after both callers returned the key does not hold the acknowledged commit", "two-caller", json!({"cold_get": format!("{truth:?}")})));
+    }
+    if let (Ok(Some(tok)), Some(t)) = (&wres, &truth) {
+        if t.etag.as_ref() != Some(tok) && fail.is_none() {
+            fail = Some(ctx("the token the writer was given is not the token of the committed object", "two-caller", json!({"returned":tok,"committed":t.etag})));
+        }
+    }
+    // (a) after the acknowledged commit the same instance never reports an older one: every API, one commit
+    for (api, v) in views(p.w.os(), "k").await {
+        let t = truth_all.iter().find(|x| x.0 == api).unwrap().1.clone();
+        if !same_commit(&v, &t) && fail.is_none() {
+            fail = Some(ctx("after an acknowledged commit the instance still reports an older commit (size / token / timestamp / bytes differ from what a fresh instance reads)",
+                "stale-after-ack", json!({"api":api,"instance_says":format!("{v:?}"),"fresh_instance_says":format!("{t:?}")})));
+        }
+    }
+    if let Some(t) = &truth {
+        // a range valid for the committed object must be served
+        let full = t.size;
+        if full > 0 {
+            match p.w.os().get_ranges(&Path::from("k"), &[0..full]).await {
+                Ok(b) if Some(b[0].to_vec()) == t.bytes => {}
+                other => if fail.is_none() {
+                    fail = Some(ctx("get_ranges over the whole committed object is refused or returns other bytes", "stale-after-ack", json!({"range":[0, full],"result":format!("{:?}", other.map(|b| b[0].len()))})));
+                }
+            }
+        }
+    }
+    // (b) what the concurrent reader saw is one whole commit: the old one or the new one
+    if reader <= 4 {
+        if !(same_commit(&seen, &old_view) || same_commit(&seen, &truth) || seen.is_none()) && fail.is_none() {
+            fail = Some(ctx("a concurrent reader saw a mixture of two commits", "two-caller", json!({"seen":format!("{seen:?}"),"old":format!("{old_view:?}"),"new":format!("{truth:?}")})));
+        }
+    } else if let Some(v) = &seen {
+        let b = v.bytes.clone().unwrap_or_default();
+        let okb = b == v0[0..5].to_vec() || want_bytes.as_ref().map(|w| w.len() >= 5 && b == w[0..5].to_vec()).unwrap_or(false);
+        if !okb && fail.is_none() {
+            fail = Some(ctx("a concurrent get_ranges returned bytes of neither commit", "two-caller", json!({"bytes":b})));
+        }
+    }
+    (branching, fail)
+}
+
+async fn two_callers(rng: &mut Rng, limit: usize, samples: usize, post_writes: bool, failures: &mut Vec<Value>, evaluations: &mut u64) -> (u64, u64, bool) {
+    let mut scenarios = 0u64;
+    let mut runs = 0u64;
+    let mut exhaustive = true;
+    for kind in [Kind::Meta, Kind::Enc(16)] {
+        for reader in 0..READERS.len() {
+            for writer in 0..WRITERS.len() {
+                for fail_cleanup in [false, true] {
+                    scenarios += 1;
+                    let mut choices: Vec<usize> = Vec::new();
+                    let mut n = 0usize;
+                    let mut seen_fail = false;
+                    loop {
+                        let (branching, fail) = two_caller_run(kind, reader, writer, fail_cleanup, post_writes, &choices).await;
+                        runs += 1;
+                        n += 1;
+                        *evaluations += 1;
+                        if let Some(f) = fail {
+                            if !seen_fail {
+                                failures.push(f);
+                            }
+                            seen_fail = true;
+                        }
+                        if !next_choices(&mut choices, &branching) {
+                            break;
+                        }
+                        if n >= limit {
+                            exhaustive = false;
+                            for _ in 0..samples {
+                                let ch: Vec<usize> = (0..60).map(|_| rng.below(3) as usize).collect();
+                                let (_b, fail) = two_caller_run(kind, reader, writer, fail_cleanup, post_writes, &ch).await;
+                                runs += 1;
+                                *evaluations += 1;
+                                if let Some(f) = fail {
+                                    if !seen_fail {
+                                        failures.push(f);
+                                    }
+                                    seen_fail = true;
+                                }
+                            }
+                            break;
+                        }
+                    }
+                }
+            }
+        }
+    }
+    (scenarios, runs, exhaustive)
+}
+
 pub fn main(args: &[String]) {
     let out_path = arg_value(args, "--out").expect("--out");
     let seqs: usize = arg_value(args, "--seqs").and_then(|s| s.parse().ok()).unwrap_or(100);
@@ -798,6 +1014,7 @@ async fn run(seqs: usize, out: &mut impl std::io::Write) {
         }
     }
 
+    let (tc_scenarios, tc_runs, tc_exhaustive) = two_callers(&mut rng, if seqs >= 1000 { 6000 } else { 150 }, if seqs >= 1000 { 300 } else { 60 }, seqs >= 1000, &mut failures, &mut evaluations).await;
     let oracle_failures = failures.len();
     let mut per_class: BTreeMap<String, u64> = BTreeMap::new();
     failures.retain(|f| {
@@ -808,6 +1025,7 @@ async fn run(seqs: usize, out: &mut impl std::io::Write) {
     let summary = json!({"kind":"summary","sequences":seqs,"evaluations":evaluations,"calls":call_hist,"results":result_hist,
         "wrappers":kind_hist,"tolerated_divergences":tolerated,"cas_ok":cas_ok,"cas_rejected":cas_rejected,
         "rewrites_after_retired_token":aba_rewrites,"span_cases":span_cases,"pre_cases":pre_cases,"nontrivial":nontrivial,
+        "two_caller_scenarios":tc_scenarios,"two_caller_schedules":tc_runs,"two_caller_exhaustive":tc_exhaustive,
         "oracle_failures":oracle_failures,"failure_classes":per_class,"failures":failures});
     writeln!(out, "{summary}").unwrap();
     out.flush().unwrap();
